@@ -6,6 +6,7 @@ From VQ Require Import Model.Shapes Model.ShapesDoc Proofs.ShapesProofs Glue.Sha
 From VQ Require Import Glue.Pin_fp_C13.
 From Coq Require Import ZArith SpecFloat. From VQ Require Import Model.B32 Proofs.BF16Index.
 From VQ Require Import Glue.FsqCastGlue.
+From VQ Require Import Glue.MaskGuardsGlue.
 Import ListNotations.
 
 Theorem C13_output_shape_is_input_shape :
@@ -115,6 +116,20 @@ Theorem C13_tie_fsq_index_before_cast :
   index_before_cast o_fsq_index_cast.o_fsq_index_cast = true.
 Proof. exact (@FsqCastGlue.fsq_index_before_cast). Qed.
 Print Assumptions C13_tie_fsq_index_before_cast.
+
+Theorem C13_tie_index_masking_guarded_by_mask_only :
+  forall m : bool,
+       g_vq_zero_padded_input.g_vq_zero_padded_input m = m /\
+       g_vq_mask_output.g_vq_mask_output m = m /\ g_vq_mask_indices.g_vq_mask_indices m = m.
+Proof. exact (@MaskGuardsGlue.vq_mask_guards_are_mask_given). Qed.
+Print Assumptions C13_tie_index_masking_guarded_by_mask_only.
+
+Theorem C13_tie_mask_guard_atoms :
+  g_vq_zero_padded_input.g_vq_zero_padded_input_atoms = ["exists_mask"] /\
+       g_vq_mask_output.g_vq_mask_output_atoms = ["exists_mask"] /\
+       g_vq_mask_indices.g_vq_mask_indices_atoms = ["exists_mask"].
+Proof. exact (@MaskGuardsGlue.vq_mask_guard_atoms). Qed.
+Print Assumptions C13_tie_mask_guard_atoms.
 
 (* index range: indices are argmax / argmin positions of non-empty score lists (C01_argmax_in_range), mixed-radix digits
    sums below prod(levels) (C04), and -1 exactly at padded (C09) or dropped (C12) entries *)
